@@ -72,6 +72,20 @@ def gen_cases(rng, tier):
             kx, ky = rng.choice('qu'), rng.choice('qu')
             cases.append({'dm': rng.choice(W.MODES), 'pre': True, 'script': [], 'hist': [],
                           'q': {'k': 'op', 'o': [o, _opd(rng, u, kx), _opd(rng, v, ky)]}})
+    # results of a QUANTIZED type (DataVolume = DataThroughput * Duration): every operand
+    # form, factors that are not multiples of the quantum
+    thr, dur = siref.units_of('DataThroughput'), siref.units_of('Duration')
+    qpairs = [(a, b) for a in thr for b in dur] + [(b, a) for a in thr for b in dur]
+    for u, v in (qpairs if tier == 'thorough' else rng.sample(qpairs, 70)):
+        kx, ky = rng.choice(['qu', 'uq', 'qq', 'uq'])
+        cases.append({'dm': rng.choice(W.MODES), 'pre': True, 'script': [], 'hist': [],
+                      'q': {'k': 'op', 'o': ['mul', _opd(rng, u, kx), _opd(rng, v, ky)]}})
+    # the OTHER operator on the same ordered pair evaluated first (cache keys)
+    for c in list(cases):
+        m = c['q']['o']
+        if m[0] in ('mul', 'div') and rng.random() < 0.12:
+            other = ['div' if m[0] == 'mul' else 'mul', ['u', m[1][-1]], ['u', m[2][-1]]]
+            cases.append(dict(c, hist=[other, other]))
     for u in (syms if tier == 'thorough' else rng.sample(syms, 25)):
         for k in range(-3, 4):
             cases.append({'dm': 'MHEVEN', 'pre': True, 'script': [], 'hist': [],
@@ -88,6 +102,16 @@ def gen_cases(rng, tier):
         tag = ''.join(rng.choice('abcdefghk') for _ in range(3))
         script, w = RW.gen_world(rng, tag)
         us = list(w.order)
+        # products / quotients of the reference units of the types a derived type is made of
+        for c in w.classes.values():
+            if c['cdef'] and len(c['cdef']) == 2 and rng.random() < 0.7:
+                (ca, ea), (cb, eb) = c['cdef']
+                ra, rb = w.classes[ca]['ref'], w.classes[cb]['ref']
+                if ra and rb:
+                    o = [rng.choice(['mul', 'div']), _opd(rng, ra, rng.choice('qu')),
+                         _opd(rng, rb, rng.choice('qu'))]
+                    cases.append({'dm': rng.choice(W.MODES), 'pre': False, 'script': script,
+                                  'hist': [], 'q': {'k': 'op', 'o': o}})
         for _ in range(3):
             r = rng.random()
             if r < 0.2:
@@ -99,7 +123,10 @@ def gen_cases(rng, tier):
             else:
                 o = [rng.choice(['mul', 'div']), _opd(rng, rng.choice(us), rng.choice('qu')),
                      _opd(rng, rng.choice(us), rng.choice('qu'))]
-            cases.append({'dm': rng.choice(W.MODES), 'pre': False, 'script': script, 'hist': [],
+            hist = []
+            if o[0] in ('mul', 'div') and o[1][0] in 'qu' and o[2][0] in 'qu' and rng.random() < 0.3:
+                hist = [['div' if o[0] == 'mul' else 'mul', ['u', o[1][-1]], ['u', o[2][-1]]]]
+            cases.append({'dm': rng.choice(W.MODES), 'pre': False, 'script': script, 'hist': hist,
                           'q': {'k': 'op', 'o': o}})
     return cases
 
